@@ -183,7 +183,8 @@ theorem closed_world_params : Gen.Handlers.handlerArity = modelledArity := by de
 theorem closed_world_touches : Gen.Handlers.handlerTouches = modelledTouches := by decide
 
 /-- building the class of a proxy after the peer's HANDLE_INSPECT answer resolves the peer-chosen dotted name by lookups in
-`sys.modules` and one `getattr` (`classLookup`): the calls of `netref.class_factory` are the modelled ones, none imports -/
+`sys.modules` and a read of the module's namespace (`classLookup`): the calls of `netref.class_factory` are the modelled
+ones — no `getattr` on a module (which would run a module-level `__getattr__`), nothing that imports -/
 theorem closed_world_class_factory : Gen.Handlers.classFactoryCalls = modelledClassFactoryCalls := by decide
 
 /-- `classLookup` tries the whole name, then every dotted prefix from the right, e.g. for `a.b.C` -/
